@@ -23,6 +23,9 @@ CORPUS = [
     # ordered lists keyed by unions and enumerations: targets of the ordered-map check only (tag c15only)
     {"name": "vok", "yang": [S + "/verif-ordkeys.yang"], "path": [S], "compressed": True, "tags": ["ordered", "simpleunion", "c15only"],
      "flags": COMMON + ["-compress_paths", "-ignore_shadow_schema_paths", "-generate_simple_unions", "-yangpresence"]},
+    # a container shared by two ordered lists: trees of the Diff check only (tag c03only)
+    {"name": "vsc", "yang": [S + "/verif-sharedcont.yang"], "path": [S], "compressed": True, "tags": ["ordered", "simpleunion", "c03only", "sharedcont"],
+     "flags": COMMON + ["-compress_paths", "-ignore_shadow_schema_paths", "-generate_simple_unions", "-yangpresence"]},
     # the repository's own integration schema, regenerated with the copy's generator
     {"name": "cts", "yang": ["integration_tests/schemaops/yang/ctestschema.yang", "integration_tests/schemaops/yang/ctestschema-rootmod.yang"],
      "path": ["integration_tests/schemaops/yang"], "compressed": True, "tags": ["ordered", "simpleunion"],
